@@ -696,8 +696,12 @@ def run_c05(args):
 
 
 def run_c06(args):
+    # Families whose specifications are gas-independent only (loops get an out-of-gas path under
+    # the default configuration; those families are checked by C01, compiled without gas).
+    c06_quick = ["arith", "cast", "felt", "bool", "wide", "bounded", "plumb", "hash"]
+    fams = args.families or (c06_quick + ["fold"] if args.tier == "thorough" else c06_quick)
     return generic(args, "C06", workers.c06_worker, [("default", {})], confirm_c06,
-                   extra_task=lambda fam, e: (fam, 0), families=fams_for(args, CORE_FAMS))
+                   extra_task=lambda fam, e: (fam, 0), families=fams)
 
 
 def main():
